@@ -74,6 +74,15 @@ type gcSess struct {
 	// wbs[key][ver] = the largest gcDiscardTs (DB max version at the start of the rewrite) of a
 	// rewrite that selected (key, ver) for write-back
 	wbs map[string]map[uint64]uint64
+	// resTag: the classification a resurrected (key, version) got when it was first seen
+	resTag map[string]string
+	// inGc: between the scan of a parked rewrite and the end of its write-back (the window the
+	// #2286 clamp is responsible for)
+	inGc bool
+	// curSel: what the parked rewrite selected; wbCompleted: (key, version) written back by a
+	// rewrite that has finished
+	curSel      map[string]bool
+	wbCompleted map[string]bool
 }
 
 func (s *gcSess) closeAll() {
@@ -128,6 +137,10 @@ func (s *gcSess) open(kv map[string]string) (string, error) {
 	s.recIdx = map[uint32]map[uint32]int{}
 	s.gcSeen = false
 	s.wbs = map[string]map[uint64]uint64{}
+	s.resTag = map[string]string{}
+	s.inGc = false
+	s.curSel = map[string]bool{}
+	s.wbCompleted = map[string]bool{}
 	mc, ms, _ := badger.VerifLimits(s.db)
 	return fmt.Sprintf("reset managed=%d keep=%d thr=%d levels=%d maxent=%d memsz=%d tblsz=%d basesz=%d now=%d maxcount=%d maxsize=%d",
 		b2i(s.managed), s.keep, s.thr, s.levels, s.maxent, memsz, tblsz, basesz, s.now, mc, ms), nil
@@ -261,17 +274,25 @@ func (s *gcSess) classify(key string, got, want string, gotVer uint64, dflt stri
 	case strings.Contains(got, "READERR"):
 		return "C15-dangling-read"
 	case want == "absent" && got != "absent":
-		// F21: the version served was written back by a rewrite, and the history holds a dead
-		// (deleted / expired) version of the key above it that is NOT above that rewrite's
-		// gcDiscardTs (a dead version above gcDiscardTs is what the #2286 clamp protects)
+		// F21: the version served was written back by a rewrite and the history holds a dead
+		// (deleted / expired) version of the key above it. NOT F21 (but the race the #2286 clamp
+		// must prevent): the key comes back inside the window scan..write-back of a rewrite although
+		// every dead version above it is newer than that rewrite's gcDiscardTs.
+		id := fmt.Sprintf("%s@%d", key, gotVer)
+		if t, ok := s.resTag[id]; ok {
+			return t
+		}
+		tag := "C15-resurrected"
 		if gcTs, ok := s.wbs[key][gotVer]; ok {
 			for _, x := range s.spec.hist[key] {
-				if x.dead(s.now) && x.ver > gotVer && x.ver <= gcTs {
-					return "F21:gc-writeback-above-tombstone"
+				inWindow := s.inGc && s.curSel[id] && !s.wbCompleted[id]
+				if x.dead(s.now) && x.ver > gotVer && (x.ver <= gcTs || !inWindow) {
+					tag = "F21:gc-writeback-above-tombstone"
 				}
 			}
 		}
-		return "C15-resurrected"
+		s.resTag[id] = tag
+		return tag
 	}
 	return dflt
 }
@@ -309,11 +330,12 @@ func (s *gcSess) judgeReads(what string, pre []readSnap, fail func(string, strin
 
 // noteWriteBacks: the (key, version) pairs a rewrite of `fid` selects (its scan has just run, or
 // is about to run with nothing in between), with the rewrite's gcDiscardTs.
-func (s *gcSess) noteWriteBacks(fid uint32, gcTs uint64) {
+func (s *gcSess) noteWriteBacks(fid uint32, gcTs uint64, done bool) {
 	recs, err := badger.VerifVlogRecords(s.db, fid)
 	if err != nil {
 		return
 	}
+	s.curSel = map[string]bool{}
 	for _, r := range recs {
 		e, ok, err := badger.VerifGetAtPtr(s.db, r.Key, r.Version)
 		if err != nil || !ok || e.Version != r.Version || !e.IsPtr || e.Fid != fid || e.Offset != r.Offset {
@@ -326,6 +348,12 @@ func (s *gcSess) noteWriteBacks(fid uint32, gcTs uint64) {
 		}
 		if gcTs > m[r.Version] || m[r.Version] == 0 {
 			m[r.Version] = gcTs
+		}
+		id := fmt.Sprintf("%s@%d", string(r.Key), r.Version)
+		if done {
+			s.wbCompleted[id] = true
+		} else {
+			s.curSel[id] = true
 		}
 	}
 }
@@ -735,6 +763,7 @@ func execGc(intents []string, st *Stats) (final, outs, oracle []string) {
 				emit(fmt.Sprintf("gc ratio=%s fid=0", kvl["ratio"]), gcErrKind(err))
 				continue
 			}
+			s.refreshIdx()
 			fid := uint32(0)
 			if ratio > 0 && ratio < 1 {
 				fid = badger.VerifVlogPick(s.db, ratio)
@@ -744,7 +773,7 @@ func execGc(intents []string, st *Stats) (final, outs, oracle []string) {
 			nrec := s.totalRecs()
 			recsOld := 0
 			if fid != 0 {
-				s.noteWriteBacks(fid, s.db.MaxVersion())
+				s.noteWriteBacks(fid, s.db.MaxVersion(), true)
 				r, _ := badger.VerifVlogRecords(s.db, fid)
 				recsOld = len(r)
 			}
@@ -790,9 +819,10 @@ func execGc(intents []string, st *Stats) (final, outs, oracle []string) {
 			}
 			parked, out := s.startRun(fid)
 			emit(line, out)
+			s.inGc = parked
 			if parked {
 				_, gcTs := badger.VerifGcClamp(s.db)
-				s.noteWriteBacks(fid, gcTs)
+				s.noteWriteBacks(fid, gcTs, false)
 				s.judgeReads(fmt.Sprintf("the GC scan of file %d", fid), s.run.pre, fail)
 				st.Inc("gc:parked")
 			}
@@ -807,6 +837,11 @@ func execGc(intents []string, st *Stats) (final, outs, oracle []string) {
 			emit(line, out)
 			st.Inc("gc:end:" + strings.Join(strings.Fields(out)[:1], ""))
 			s.judgeReads(fmt.Sprintf("the GC write-back of file %d", fid), pre, fail)
+			s.inGc = false
+			for id := range s.curSel {
+				s.wbCompleted[id] = true
+			}
+			s.curSel = map[string]bool{}
 			emit("vlog", s.vdump(fail))
 			emit("dump", s.pdump())
 		default:
@@ -859,7 +894,7 @@ func (s *gcSess) judgeIterItem(item *badger.Item, got string, fail func(string, 
 		return
 	}
 	for _, v := range s.spec.hist[string(key)] {
-		if v.ver == item.Version() && !v.del {
+		if v.ver == item.Version() && !v.dead(s.now) {
 			if s.spec.dupVersion(key) {
 				return
 			}
